@@ -62,6 +62,9 @@ func c07GenNeutral(r *fw.Rand, src, dst string, contiguous bool) []ncue {
 			}
 			lines = []string{strings.Join(ws, " ") + fmt.Sprintf(" %d", k)}
 		}
+		if (src == "srt" || src == "vtt") && r.P(1, 8) {
+			lines = nil // a cue without payload is a readable SRT / WebVTT cue
+		}
 		out = append(out, ncue{S: t, E: e, Lines: lines})
 		if contiguous || r.P(1, 2) {
 			t = e
@@ -632,7 +635,13 @@ func c07Run(c *fw.Ctx) fw.Outcome {
 		c.Count("op_"+op.Name, 1)
 	}
 	if textLost > 0 {
-		if textLost != len(exp) {
+		withText := 0
+		for _, e := range exp {
+			if stripWS(e.text()) != "" {
+				withText++
+			}
+		}
+		if textLost != withText {
 			return fw.Bad(key, fmt.Sprintf("%x", data), "%s: some but not all cue texts were lost in the STL destination", desc)
 		}
 		return fw.Outcome{Status: fw.Known, Key: key, Finding: c07FindingSTL, Detail: desc}
